@@ -49,7 +49,7 @@ def observe_section(cid, lines, sync_extra=(), events_extra=(), res=192):
     dropped into the [SyncTrack] / [Events] sections of the chart, where they are foreign (unparsable)."""
     from chartgen import chart_text, outcome
     rec = {"id": cid, "props": ["C07"], "kind": "sec", "lines": [cps(x) for x in lines], "text": lines, "raised": "",
-           "got": {"N": [], "S": [], "E": []}, "foreign": [list(sync_extra), list(events_extra)]}
+           "got": {"N": [], "S": [], "E": []}, "foreign": [list(sync_extra), list(events_extra)], "res": res}
     text = chart_text(res=res, sync=["0 = TS 4", "0 = B 120000"] + list(sync_extra), events=list(events_extra),
                       tracks={"ExpertSingle": lines})
     kind, val = outcome(text)
@@ -57,6 +57,38 @@ def observe_section(cid, lines, sync_extra=(), events_extra=(), res=192):
         rec["raised"] = type(val).__name__
         return rec
     tr = [t for _, dd in val.instrument_tracks.items() for _, t in dd.items()][0]
+
+    def digits(n):
+        return [int(c) for c in str(int(n))]
+    for e in tr.note_events:
+        lanes = [j for j in range(5) if e.note.value[j]]
+        idx = lanes[0] if lanes else 7
+        sus = e.sustain if isinstance(e.sustain, int) else max(x for x in e.sustain if x is not None)
+        rec["got"]["N"].append([digits(e.tick), idx, digits(sus)])
+    rec["got"]["S"] = [[digits(e.tick), digits(e.sustain)] for e in tr.star_power_events]
+    rec["got"]["E"] = [[digits(e.tick), cps(e.value)] for e in tr.track_events]
+    return rec
+
+
+LINE_BOUNDARIES = ["\x0b", "\x0c", "\x1c", "\x1d", "\x1e", "\x85", "\u2028", "\u2029", "\r", "\n", "\r\n"]
+
+
+def observe_elements(cid, elems, how="list"):
+    """The elements handed as they are to the public section-level entry point InstrumentTrack.from_chart_lines (typed
+    Iterable[str]): an ELEMENT is a line there, whatever characters it contains - a caller who cut the file at "\n" only
+    still has form feeds, NEL or U+2028 inside its lines.  The record has the shape of observe_section's."""
+    load_impl()
+    from chartgen import as_iterable
+    from chartparse.instrument import Difficulty, Instrument, InstrumentTrack
+    from chartparse.sync import SyncTrack
+    rec = {"id": cid, "props": ["C07"], "kind": "sec", "lines": [cps(x) for x in elems], "text": elems, "raised": "",
+           "got": {"N": [], "S": [], "E": []}, "foreign": [[], []], "entry": "elements:" + how}
+    try:
+        bpm = SyncTrack.from_chart_lines(192, ["  0 = TS 4", "  0 = B 120000"]).bpm_events
+        tr = InstrumentTrack.from_chart_lines(Instrument.GUITAR, Difficulty.EXPERT, as_iterable(list(elems), how), bpm)
+    except Exception as e:  # noqa: BLE001
+        rec["raised"] = type(e).__name__
+        return rec
 
     def digits(n):
         return [int(c) for c in str(int(n))]
@@ -194,6 +226,21 @@ def run(ctx):
                 recs.append(observe_section(f"p{j}-direct", sec, sx, ex))
         ctx.evaluations += 1
         ctx.distinct(["sec", sec, sx, ex])
+    # the section-level entry point with ELEMENTS that carry a line-boundary character inside (what str.splitlines() would cut
+    # at, but the caller did not): a canonical line glued to other text by such a character is a line of another shape - it
+    # yields no event of these kinds, and the canonical elements around it yield theirs
+    from chartgen import ITERABLE_KINDS as _IK
+    simple_kinds = [k_ for k_ in _IK if not k_.startswith("track-level") and k_ not in ("file-object", "lines-with-terminators")]
+    for j in range(ctx.pick(120, 2000)):
+        sec = canonical_section(r, r.choice([2, 4, 8]))
+        for _ in range(r.randrange(1, 4)):
+            lb = r.choice(LINE_BOUNDARIES)
+            canon = r.choice(["10 = N 1 0", "20 = S 2 96", "30 = E solo", "  40 = N 7 5  ", "50 = N 5 0"])
+            junk = r.choice(["ju nk", "x y", "60 = N 9 0", "= = =", "70 = Q 1 2"])
+            glued = r.choice([canon + lb + junk, junk + lb + canon, canon + lb + junk + lb + canon, junk + lb + canon + lb + junk])
+            sec.insert(r.randrange(0, len(sec) + 1), glued)
+        recs.append(observe_elements(f"el{j}", sec, simple_kinds[j % len(simple_kinds)]))
+        ctx.evaluations += 1
     # lengths (and ticks) that are congruent modulo the constants an implementation may hash or truncate by: phrases on ONE tick
     # whose lengths differ by multiples of 2^61 - 1 (CPython's integer hash modulus), 2^32, 2^64; notes likewise
     for name, big in (("m61", 2**61 - 1), ("2m61", 2 * (2**61 - 1)), ("p32", 2**32), ("p64", 2**64)):
@@ -213,7 +260,8 @@ def run(ctx):
         if rec["kind"] == "line":
             ctx.violation(clause, {"kind": "line", "line": rec["text"], "codepoints": rec["line"], "acc": rec["acc"]}, key=clause)
         elif rec["kind"] == "sec":
-            ctx.violation(clause, {"kind": "sec", "lines": rec["text"], "foreign": rec["foreign"], "got": rec["got"], "raised": rec["raised"]}, key=clause)
+            ctx.violation(clause, {"kind": "sec", "lines": rec["text"], "foreign": rec["foreign"], "got": rec["got"], "raised": rec["raised"],
+                                   "entry": rec.get("entry", ""), "res": rec.get("res", 192)}, key=clause)
     ctx.exhaustive = True
     # block boundaries: the section laid out so that boundaries of every power-of-two block size (and of multiples of 1000)
     # fall right behind, just after and inside its lines; > 2^20 characters; through from_file and from_filepath
@@ -229,7 +277,10 @@ def run(ctx):
 
 def replay(ctx, obj):
     if obj.get("kind") == "sec":
-        rec = observe_section("replay", obj["lines"], obj["foreign"][0], obj["foreign"][1])
+        if obj.get("entry", "").startswith("elements:"):
+            rec = observe_elements("replay", obj["lines"], obj["entry"].split(":", 1)[1])
+        else:
+            rec = observe_section("replay", obj["lines"], obj["foreign"][0], obj["foreign"][1], res=obj.get("res", 192))
         for rid, p, clause in ctx.validate([rec]):
             ctx.violation(clause, dict(obj, got=rec["got"], raised=rec["raised"]))
         return
